@@ -139,6 +139,11 @@ structure DSt where
   host : Obj := { rname := b "host", vars := [], attrs := [] }
   cmd : Obj := { rname := b "command", vars := [], attrs := [] }
   env : List (String × Bytes) := []
+  dflt : Defaults := {}
+  undefChecked : Nat := 0
+  arrayCmdChecked : Nat := 0
+  envMacroVars : Nat := 0
+  globalVars : Nat := 0
   envChecked : Nat := 0
   envThrew : Nat := 0
   signals : Nat := 0
@@ -190,7 +195,9 @@ def setAssoc (l : List (Bytes × Val)) (k : Bytes) (v : Val) : List (Bytes × Va
   (k, v) :: l.filter (fun p => p.1 ≠ k)
 
 def DSt.objs (d : DSt) (svc : Bool) : List Obj := if svc then [d.svc, d.host, d.cmd] else [d.host, d.cmd]
-def DSt.look (d : DSt) (svc : Bool) : Bytes → Lookup := resolveMacro (d.objs svc)
+def DSt.look (d : DSt) (svc : Bool) : Bytes → Lookup := resolveMacroFull (d.objs svc) d.dflt
+/-- The levels macro values come from: service, host, command, global `Vars`. -/
+def DSt.levels (d : DSt) (svc : Bool) : List Obj := d.objs svc ++ [d.dflt.icinga]
 
 def mismatch (d : DSt) (n : Nat) (op kind impl model : String) : IO DSt := do
   IO.println s!"MISMATCH line={n} case={d.caseNo} op={op} kind={kind} impl={impl} model={model}"
@@ -246,6 +253,24 @@ def layoutClause (d : DSt) (look : Bytes → Lookup) (cmd : Cmd) (args : Option 
     | _, _ => (d, none)
   | none => (d, none)
 
+/-- The value of a macro as the specification clauses `string_cmd_verbatim` / `array_cmd_verbatim` use it: the scalar text
+    the macro alone resolves to (after recursion through custom variables), `$$` = `$`. -/
+def valueOfLook (look : Bytes → Lookup) (nm : Bytes) : Option Bytes :=
+  if nm = [] then some [DOLLAR] else
+  match internalResolve look 14 false (DOLLAR :: (nm ++ [DOLLAR])) with
+  | .ok (v, _) => v.scalarBytes
+  | .error _ => none
+
+/-- Spec clause `array_cmd_verbatim` on an argv the IMPLEMENTATION produced for an array command line. -/
+def arrayClause (d : DSt) (look : Bytes → Lookup) (cmd : Cmd) (hasArgs : Bool) (argv : List Bytes) : DSt × Option Clause :=
+  match cmd with
+  | .arr elems =>
+    let vo := valueOfLook look
+    if (elems.mapM (specExpectedElem vo)).isSome then
+      ({ d with arrayCmdChecked := d.arrayCmdChecked + 1 }, specArrayCmd elems vo hasArgs argv)
+    else (d, none)
+  | _ => (d, none)
+
 /-! ### handlers -/
 
 def parseImplRes (post : List String) : Option (Except String (String × String)) :=
@@ -258,8 +283,14 @@ def parseImplRes (post : List String) : Option (Except String (String × String)
 
 /-- One `ResolveMacros` result against the model under `look`. -/
 def checkM (d : DSt) (n : Nat) (line op : String) (look : Bytes → Lookup) (lvl : Nat) (esc : Bool) (s : Bytes)
-    (impl : Except String (String × String)) : IO DSt := do
+    (impl : Except String (String × String)) (levels : Option (List Obj) := none) : IO DSt := do
   let mut d := d
+  /- specification on the implementation's observation: a short macro no level defines is a missing macro -/
+  match levels, impl with
+  | some lv, .ok (_, m) =>
+    if (macroNames (tokenize s)).any (undefinedShort lv) then d := { d with undefChecked := d.undefChecked + 1 }
+    match specUndefined lv s (m == "1") with | some c => d ← specfail d n c | none => pure ()
+  | _, _ => pure ()
   match resolveMacros look lvl esc (.str s) with
   | .error .unsupported => return { d with unsupported := d.unsupported + 1 }
   | .error e =>
@@ -280,19 +311,29 @@ def handleM (d : DSt) (n : Nat) (line : String) (pre post : List String) : IO DS
   | [svc, lvl, esc, hx], some impl =>
     match parseBool? svc, lvl.toNat?, parseBool? esc, unhex hx with
     | some svc, some lvl, some esc, some s =>
-      checkM { d with steps := d.steps + 1, nM := d.nM + 1 } n line "M" (d.look svc) lvl esc s impl
+      checkM { d with steps := d.steps + 1, nM := d.nM + 1 } n line "M" (d.look svc) lvl esc s impl (some (d.levels svc))
     | _, _, _, _ => IO.println s!"BADLINE line={n}"; return d
   | _, _ => IO.println s!"BADLINE line={n}"; return d
 
 /-- One `ResolveArguments` result against the model under `look`; spec clause `argv_layout`. -/
 def checkG (d : DSt) (n : Nat) (line op : String) (look : Bytes → Lookup) (cmd : Cmd) (args : Option (List ArgSpec))
-    (impl : Except String (String × String)) : IO DSt := do
+    (impl : Except String (String × String)) (levels : Option (List Obj) := none) : IO DSt := do
   let mut d := d
+  /- specification: a `required` argument whose value mentions a short macro no level defines fails the resolution -/
+  match levels, args with
+  | some lv, some as =>
+    if as.any (requiredUndefined lv) then d := { d with undefChecked := d.undefChecked + 1 }
+    match specRequiredUndefined lv as (match impl with | .error _ => true | .ok _ => false) with
+    | some c => d ← specfail d n c | none => pure ()
+  | _, _ => pure ()
   match impl with
   | .ok (v, _) =>
     match parseCmdOut v with
     | some (some (.argv l)) =>
       let (d', c) := layoutClause d look cmd args l
+      d := d'
+      match c with | some c => d ← specfail d n c | none => pure ()
+      let (d', c) := arrayClause d look cmd args.isSome l
       d := d'
       match c with | some c => d ← specfail d n c | none => pure ()
     | _ => pure ()
@@ -322,7 +363,7 @@ def handleG (d : DSt) (n : Nat) (line : String) (pre post : List String) : IO DS
   | svc :: rest =>
     match parseBool? svc, parseCmdArgs d.plugin rest, parseImplRes post with
     | some svc, some (cmd, args, []), some impl =>
-      checkG { d with steps := d.steps + 1, nG := d.nG + 1 } n line "G" (d.look svc) cmd args impl
+      checkG { d with steps := d.steps + 1, nG := d.nG + 1 } n line "G" (d.look svc) cmd args impl (some (d.levels svc))
     | _, _, _ => IO.println s!"BADLINE line={n}"; return d
   | _ => IO.println s!"BADLINE line={n}"; return d
 
@@ -374,7 +415,7 @@ def handleH (d : DSt) (n : Nat) (line : String) (pre post : List String) : IO DS
                         (match m2r, r2 with | .ok (v, _), .ok (a, _) => showVal v == a | .error _, .error _ => true | _, _ => false)
         d := { d with cachedDiverged := d.cachedDiverged + 1 }
         d ← specfail d n .cachedEqualsDirect (divergenceClass look fuel cache explains)
-      d ← checkM d n line "H" look lvl esc s r1
+      d ← checkM d n line "H" look lvl esc s r1 (some (d.levels svc))
       d ← checkCache d n "H" look fuel cache
       checkM d n line "H2" (cacheLookup cache) lvl esc s r2
     | _, _, _, _, _, _, _ => IO.println s!"BADLINE line={n}"; return d
@@ -408,7 +449,7 @@ def handleK (d : DSt) (n : Nat) (line : String) (pre post : List String) : IO DS
         let explains := agreesCmd look cmd args r1 && agreesCmd (cacheLookup cache) cmd args r2
         d := { d with cachedDiverged := d.cachedDiverged + 1 }
         d ← specfail d n .cachedEqualsDirect (divergenceClass look 14 cache explains)
-      d ← checkG d n line "K" look cmd args r1
+      d ← checkG d n line "K" look cmd args r1 (some (d.levels svc))
       d ← checkCache d n "K" look 14 cache
       checkG d n line "K2" (cacheLookup cache) cmd args r2
     | _, _, _, _, _ => IO.println s!"BADLINE line={n}"; return d
@@ -458,7 +499,7 @@ def envUnsupported (look : Bytes → Lookup) (raw : Bytes) : Bool :=
 
 /-- One end-to-end run: specification clauses on the observations, then model against implementation. -/
 def checkRun (d : DSt) (n : Nat) (op : String) (look : Bytes → Lookup) (cmd : Cmd) (args : Option (List ArgSpec))
-    (exit : Int) (out : Bytes) (tmo slp : Nat) (o : RunObs) (term : String := "-") : IO DSt := do
+    (exit : Int) (out : Bytes) (tmo slp : Nat) (o : RunObs) (term : String := "-") (levels : Option (List Obj) := none) : IO DSt := do
   let mut d := d
   /- an `env` entry whose resolution fails: the exception leaves ExecuteCommand; the model must predict exactly that -/
   let envFails := d.env.any (fun e => (envText look e.2).isNone && !envUnsupported look e.2)
@@ -476,6 +517,11 @@ def checkRun (d : DSt) (n : Nat) (op : String) (look : Bytes → Lookup) (cmd : 
   if ran then d := { d with spawned := d.spawned + 1 } else d := { d with notRun := d.notRun + 1 }
   /- specification on the implementation's observations -/
   let mut fails : List Clause := []
+  match levels, args with
+  | some lv, some as =>
+    if as.any (requiredUndefined lv) then d := { d with undefChecked := d.undefChecked + 1 }
+    match specRequiredUndefined lv as o.recorded.isNone with | some c => fails := fails ++ [c] | none => pure ()
+  | _, _ => pure ()
   if timedOut then
     d := { d with timeouts := d.timeouts + 1 }
     match specTimeout o.state (o.gone == "1") with | some c => fails := fails ++ [c] | none => pure ()
@@ -505,15 +551,14 @@ def checkRun (d : DSt) (n : Nat) (op : String) (look : Bytes → Lookup) (cmd : 
       let (d', c) := layoutClause d look cmd args argv
       d := d'
       match c with | some c => fails := fails ++ [c] | none => pure ()
+      let (d', c) := arrayClause d look cmd args.isSome argv
+      d := d'
+      match c with | some c => fails := fails ++ [c] | none => pure ()
   | none => pure ()
   match cmd, args with
   | .str tmpl, none =>
     if recorded.isSome then
-      let valueOf := fun (nm : Bytes) =>
-        if nm = [] then some [DOLLAR] else
-        match internalResolve look 14 false (DOLLAR :: (nm ++ [DOLLAR])) with
-        | .ok (v, _) => v.scalarBytes
-        | .error _ => none
+      let valueOf := valueOfLook look
       if hasDq tmpl then
         d := { d with dqCases := d.dqCases + 1 }
       match specExpectedArgv tmpl valueOf with
@@ -531,8 +576,12 @@ def checkRun (d : DSt) (n : Nat) (op : String) (look : Bytes → Lookup) (cmd : 
   | .error .unsupported => return { d with unsupported := d.unsupported + 1 }
   | .error e =>
     d := countErr d e
-    if ran || recorded.isSome || o.state != 3 then
-      d ← mismatch d n op "error" s!"ran={ran},state={o.state}" (errName e)
+    -- PluginUtility::ExecuteCommand reports the failure as a finished process (exit status 3), nothing is started
+    match executeCommand look cmd args o.out with
+    | .failed cr =>
+      if ran || recorded.isSome || o.state != cr.state || o.exit != cr.exit then
+        d ← mismatch d n op "error" s!"ran={ran},state={o.state},exit={o.exit}" (errName e)
+    | .started _ => d ← mismatch d n op "error" s!"ran={ran},state={o.state}" "started"
     return d
   | .ok co =>
     match recorded with
@@ -576,10 +625,15 @@ def handleX (d : DSt) (n : Nat) (line : String) (pre post : List String) : IO DS
     match parseBool? svc, parseCmdArgs d.plugin rest with
     | some svc, some (cmd, args, ex :: outh :: tmo :: slp :: term) =>
       if term.length > 1 then IO.println s!"BADLINE line={n}"; return d else
-      match ex.toInt?, unhex outh, tmo.toNat?, slp.toNat?, parseRunObs post with
+      -- `<command timeout>/<check_timeout>`: the plugin's timeout is the checkable's
+      let tmoEff : Option Nat := match tmo.splitOn "/" with
+        | [c] => c.toNat?.map (fun c => itsTimeout c none)
+        | [c, k] => match c.toNat?, k.toNat? with | some c, some k => some (itsTimeout c (some k)) | _, _ => none
+        | _ => none
+      match ex.toInt?, unhex outh, tmoEff, slp.toNat?, parseRunObs post with
       | some exit, some out, some tmo, some slp, some o =>
         let d := noteNontrivial { d with steps := d.steps + 1, nX := d.nX + 1 } line
-        checkRun d n "X" (d.look svc) cmd args exit out tmo slp o (term.headD "-")
+        checkRun d n "X" (d.look svc) cmd args exit out tmo slp o (term.headD "-") (some (d.levels svc))
       | _, _, _, _, _ => IO.println s!"BADLINE line={n}"; return d
     | _, _ => IO.println s!"BADLINE line={n}"; return d
   | _ => IO.println s!"BADLINE line={n}"; return d
@@ -602,7 +656,7 @@ def handleY (d : DSt) (n : Nat) (line : String) (pre post : List String) : IO DS
           let explains := agreesCmd look cmd args r1 && agreesCmd (cacheLookup cache) cmd args r2
           d := { d with cachedDiverged := d.cachedDiverged + 1 }
           d ← specfail d n .cachedEqualsDirect (divergenceClass look 14 cache explains)
-        d ← checkRun d n "Y" look cmd args exit out 0 0 o1
+        d ← checkRun d n "Y" look cmd args exit out 0 0 o1 "-" (some (d.levels svc))
         d ← checkCache d n "Y" look 14 cache
         checkRun d n "Y2" (cacheLookup cache) cmd args exit out 0 0 o2
       | _, _ => IO.println s!"BADLINE line={n}"; return d
@@ -638,13 +692,18 @@ def handle (d : DSt) (n : Nat) (line : String) : IO DSt := do
       | some p => return { d with plugin := p, caseNo := d.caseNo + 1,
                                   svc := { d.svc with vars := [], attrs := svcAttrs0 },
                                   host := { d.host with vars := [], attrs := hostAttrs0 },
-                                  cmd := { d.cmd with vars := [] }, env := [] }
+                                  cmd := { d.cmd with vars := [] }, env := [], dflt := {} }
       | none => IO.println s!"BADLINE line={n}"; return d
     | _ => IO.println s!"BADLINE line={n}"; return d
   | ["N", idx, vh] =>
     match unhex vh with
     | some v => return { d with env := (idx, v) :: d.env.filter (fun e => e.1 != idx) }
     | none => IO.println s!"BADLINE line={n}"; return d
+  | ["U", nh, vh] =>
+    match unhex nh, unhex vh with
+    | some nm, some v =>
+      return { d with dflt := { d.dflt with env := (nm, v) :: d.dflt.env.filter (fun p => p.1 ≠ nm) }, envMacroVars := d.envMacroVars + 1 }
+    | _, _ => IO.println s!"BADLINE line={n}"; return d
   | ["V", lvl, nh, vt] =>
     match unhex nh, parseVal vt with
     | some nm, some v =>
@@ -652,6 +711,7 @@ def handle (d : DSt) (n : Nat) (line : String) : IO DSt := do
       if lvl == "s" then return { d with svc := { d.svc with vars := setAssoc d.svc.vars nm v } }
       else if lvl == "h" then return { d with host := { d.host with vars := setAssoc d.host.vars nm v } }
       else if lvl == "c" then return { d with cmd := { d.cmd with vars := setAssoc d.cmd.vars nm v } }
+      else if lvl == "i" then return { d with dflt := { d.dflt with globals := setAssoc d.dflt.globals nm v }, globalVars := d.globalVars + 1 }
       else IO.println s!"BADLINE line={n}"; return d
     | _, _ => IO.println s!"BADLINE line={n}"; return d
   | ["T", lvl, attr, vh] =>
@@ -710,4 +770,4 @@ def handle (d : DSt) (n : Nat) (line : String) : IO DSt := do
 def main : IO Unit := do
   let stdin ← IO.getStdin
   let d ← foldLines stdin handle ({} : DSt)
-  IO.println s!"STATS cases={d.caseNo} steps={d.steps} macro_strings={d.nM} resolutions={d.nG} spawns={d.nX} cached_macro_strings={d.nH} cached_resolutions={d.nK} cached_spawns={d.nY} cached_checked={d.cachedChecked} cached_diverged={d.cachedDiverged} crashes={d.crashes} layout_checked={d.layoutChecked} sep_joined={d.sepJoined} outputs={d.nP} exits={d.nE} sh_lines={d.nW} err_recursion={d.errRec} err_unclosed={d.errUnclosed} err_mixing={d.errMixing} err_required={d.errRequired} unsupported={d.unsupported} missing={d.missing} arrays={d.arrays} sh_checked={d.shLines} sh_outside={d.shOutside} tie_permutations={d.tiePerm} ran={d.spawned} not_run={d.notRun} timeouts={d.timeouts} dq_cases={d.dqCases} dq_interpreted={d.dqInterpreted} verbatim_checked={d.verbatimChecked} env_checked={d.envChecked} env_threw={d.envThrew} signal_deaths={d.signals} typed_values={d.typedVals} nontrivial={d.nontrivial} mismatches={d.mismatches} specfails={d.specfails}"
+  IO.println s!"STATS cases={d.caseNo} steps={d.steps} macro_strings={d.nM} resolutions={d.nG} spawns={d.nX} cached_macro_strings={d.nH} cached_resolutions={d.nK} cached_spawns={d.nY} cached_checked={d.cachedChecked} cached_diverged={d.cachedDiverged} crashes={d.crashes} layout_checked={d.layoutChecked} sep_joined={d.sepJoined} outputs={d.nP} exits={d.nE} sh_lines={d.nW} err_recursion={d.errRec} err_unclosed={d.errUnclosed} err_mixing={d.errMixing} err_required={d.errRequired} unsupported={d.unsupported} missing={d.missing} arrays={d.arrays} sh_checked={d.shLines} sh_outside={d.shOutside} tie_permutations={d.tiePerm} ran={d.spawned} not_run={d.notRun} timeouts={d.timeouts} dq_cases={d.dqCases} dq_interpreted={d.dqInterpreted} verbatim_checked={d.verbatimChecked} env_checked={d.envChecked} env_threw={d.envThrew} array_cmd_checked={d.arrayCmdChecked} undefined_checked={d.undefChecked} daemon_env_vars={d.envMacroVars} global_vars={d.globalVars} signal_deaths={d.signals} typed_values={d.typedVals} nontrivial={d.nontrivial} mismatches={d.mismatches} specfails={d.specfails}"
